@@ -11,6 +11,9 @@ def harnesses(tier):
             BHarness('R1_hhe_hydrogen_only', 'c06_real.cpp', 'h_r1_hhe_hydrogen_only', cflags=cf, real_model=True, perturb=False, timeout=900,
                 what='REAL-MODEL: hydrogen-only gas through the coupled H/He solver (AHe = 0, no helium-ionizing photons; the route the thermal balance takes): 0 < x < 1, helium neutral, and x solves the balance C(1-x)^2 = x to within the series cut-off (relative residual <= 1e-3) on every path through the iteration; no zero denominator',
                 bound='alphaH in [1e-20,1e-16], jH in [1e-20,1e3] (the 23 flux decades), nH in [1e4,1e12], T in [1e2,1e5], all symbolic reals; all paths of the iteration (it converges in <= 3 passes here); double operations read as exact real operations (rounding outside this clause), sqrt by s>=0 & s*s=a, exp by positivity/sign facts'),
+            BHarness('R1b_hhe_hydrogen_only_jhe', 'c06_real.cpp', 'h_r1b_hhe_hydrogen_only_jhe', cflags=cf, real_model=True, perturb=False, timeout=1200, maxpaths=400,
+                what='REAL-MODEL: hydrogen-only gas (AHe = 0) with helium-ionizing photons present (J_He > 0): the helium half of the H/He solver runs on a zero abundance without a zero denominator, 0 < x_H < 1, 0 < x_He <= 1, and x_H still solves the hydrogen balance to 1e-3 on every path',
+                bound='alphaH, alphaHe in [1e-20,1e-16], jH, jHe in [1e-20,1e3], nH in [1e4,1e12], T in [1e2,1e5] symbolic reals; all paths of the iteration'),
             BHarness('I2_metal_stages', 'c06_real.cpp', 'h_i2_metals', cflags=cf, real_model=True, perturb=False, timeout=900,
                 what='REAL-MODEL: compute_ionization_states_metals with the real ChargeTransferRates: for every positive electron density all 12 metal stage fractions are in [0,1], the tracked stages of C, N, O, Ne, S each sum to at most 1, and no denominator is zero (finite results); the charge-transfer rates are proved positive on the way (1 - 0.92 exp(-8.38 T4) > 0 etc.)',
                 bound='12 intensity integrals in [0,1e3], recombination rates in [1e-22,1e-14] (stub: positive), ne in (0,1e13], nh0, nhe0, nhp in [0,1e12], T in [1e2,1e5]; exact real operations, exp/pow by sign facts'),
